@@ -10,7 +10,7 @@ from __future__ import annotations
 import numpy as np
 
 from .. import circmon, qubitref as qr, tomoref
-from ..gen import equivalent_variant, haar
+from ..gen import as_callback, equivalent_variant, haar
 from .c15 import random_1q
 from .common import drain_into, merge_stats, setup
 
@@ -84,6 +84,11 @@ def run(ctx):
             out.append(probs)
         return out
 
+    def callback():
+        cb, form = as_callback(experiment, rng)
+        ctx.bucket("callback_is_" + form)
+        return cb
+
     earlier: list = []
     while not ctx.out_of_time():
         n = 1 if rng.random() < (0.8 if ctx.tier == "quick" else 0.7) else 2
@@ -131,7 +136,7 @@ def run(ctx):
           while True:
             choi_ref = tomo.choi_from_unitary(v)
             if method == "LI":
-                pt = objs.setdefault("pt", tomo.LIProcessTomography(n, base, experiment))
+                pt = objs.setdefault("pt", tomo.LIProcessTomography(n, base, callback()))
                 choi = pt.process()
                 ctx.count("li_postconditions")
                 if complex_nonsym: ctx.bucket("li_complex_nonsymmetric")
@@ -146,7 +151,7 @@ def run(ctx):
                     ctx.violation(f"LI fidelity against choi_from_unitary(V) is {fid:.9f}", case=case,
                                   mechanism="li_fidelity", monitor="LIProcessTomography.process post-condition")
             elif method == "MLE":
-                pt = objs.setdefault("pt", tomo.MLEProcessTomography(n, base, experiment))
+                pt = objs.setdefault("pt", tomo.MLEProcessTomography(n, base, callback()))
                 choi = pt.process()
                 ctx.count("mle_postconditions")
                 if complex_nonsym: ctx.bucket("mle_complex_nonsymmetric")
@@ -173,7 +178,7 @@ def run(ctx):
                 if kind == "same" and rng.random() < 0.5:
                     target = target * np.exp(1j * rng.uniform(0, 6.28))      # a global phase is irrelevant
                 case["target"] = kind
-                gf = objs.setdefault("gf", tomo.GateFidelity(n, base, experiment))
+                gf = objs.setdefault("gf", tomo.GateFidelity(n, base, callback()))
                 f = gf.process(target)
                 ctx.count("gate_fidelity_postconditions")
                 want = (abs(np.trace(target.conj().T @ v)) ** 2 + d) / (d * (d + 1))
